@@ -2,12 +2,14 @@
 from __future__ import annotations
 
 import random
+import re
 
 import gen
 import steps as S
 from common import Case, b, lst, nat, opt
 from prosemirror.model import Fragment, Node
-from prosemirror.transform import AddMarkStep, RemoveMarkStep, Transform
+from prosemirror.transform import AddMarkStep, AttrStep, RemoveMarkStep, Transform
+from prosemirror.transform.doc_attr_step import DocAttrStep
 from prosemirror.transform.transform import TransformError
 
 ID = "C13"
@@ -125,6 +127,10 @@ def generate(rng: random.Random, tier: str):
                     continue
                 except Exception as e:  # noqa: BLE001
                     args = {"crash": f"{type(e).__name__}: {e}"[:100]}
+                    c = S.history_case(fam, tr.before, tr.steps, tr.doc, f"op/{op}/CRASH", [[op, args, "crash"]])
+                    c.desc["impl_failure"] = f"{op} raised {args['crash']}"
+                    yield c
+                    continue
                 if tr.steps:
                     yield S.history_case(fam, tr.before, tr.steps, tr.doc, f"op/{op}", [[op, args, "ok"]])
 
@@ -146,6 +152,73 @@ def generate(rng: random.Random, tier: str):
                 yield markup_case(fam, doc, pos, given)
 
 
+    # attribute steps writing FALSY values (0, "", False): a value that is given is kept, whatever its truth value - only a
+    # missing one / None takes the default (appended stream; seeded change C13-8: `if not given` in compute_attrs)
+    for fam in gen.FAMILY:
+        g, docs = S.family_docs(rng, fam, 4 if quick else 40)
+        for doc in docs:
+            cands = [(p, n) for p, n in S.all_positions_with_nodes(doc) if not n.is_text and n.type.attrs]
+            for _ in range(3 if quick else 8):
+                if not cands:
+                    break
+                p, n = rng.choice(cands)
+                an = rng.choice(sorted(n.type.attrs))
+                yield S.apply_case(fam, doc, AttrStep(p, an, rng.choice([0, "", False, 0, ""])), True, "node-step/falsy-value")[0]
+            if doc.type.attrs:
+                yield S.apply_case(fam, doc, DocAttrStep(sorted(doc.type.attrs)[0], rng.choice([0, "", False])), True,
+                                   "node-step/falsy-value")[0]
+
+    # set_block_type away from a code block whose text holds line breaks next to characters outside the BMP: every line
+    # break becomes a space AT ITS OWN POSITION (positions count UTF-16 units), the rest of the text is kept (appended stream)
+    texts = ["\U0001F600\nx", "a\n\U0001F600\nb", "\U00010348\U0001F600\r\nz\r", "\n\U0001F600", "ab\ncd", "\U0001F600x\n\n\U0001F600\n"]
+    for fam in gen.FAMILY:
+        sc = gen.family(fam)
+        if "code_block" not in sc.nodes or "paragraph" not in sc.nodes:
+            continue
+        more = ["".join(rng.choice(["a", "\n", "\U0001F600", "\r\n", " ", "\U00010348"]) for _ in range(rng.randint(2, 7)))
+                for _ in range(4 if quick else 60)]
+        for t in texts + [m for m in more if m]:
+            c = code_newline_case(fam, t)
+            if c is not None:
+                yield c
+
+
+def code_newline_case(fam, t):
+    sc = gen.family(fam)
+    blocks = [sc.node("code_block", None, [sc.text(t)])]
+    doc = None
+    for pre in ([], [sc.nodes["heading"].create_and_fill()] if "heading" in sc.nodes else []):
+        try:
+            cand = sc.node("doc", None, list(pre) + blocks)
+            cand.check()
+            doc = cand
+            break
+        except Exception:  # noqa: BLE001
+            continue
+    if doc is None:
+        return None
+    pos = doc.content.size - blocks[0].node_size + 1
+    tr = Transform(doc)
+    crash = None
+    try:
+        tr.set_block_type(pos, pos, sc.nodes["paragraph"], None)
+    except (TransformError, ValueError):
+        pass
+    except Exception as e:  # noqa: BLE001
+        crash = f"set_block_type raised {type(e).__name__}: {e}"[:160]
+    c = S.history_case(fam, tr.before, tr.steps, tr.doc, "op/set_block_type/code-newlines" + ("/CRASH" if crash else ""),
+                       [["set_block_type", {"pos": pos, "type": "paragraph", "text": t}, "crash" if crash else "ok"]])
+    c.desc["code_newline_text"] = t
+    if crash:
+        c.desc["impl_failure"] = crash
+    elif tr.steps:
+        want = re.sub(r"\r?\n|\r", " ", t)
+        got = tr.doc.text_between(0, tr.doc.content.size, "|")
+        if want not in got.split("|"):
+            c.desc["impl_failure"] = f"set_block_type gave text {got!r}, expected a block reading {want!r}"
+    return c
+
+
 def markup_case(fam, doc, pos, given):
     info = S.info_for(fam)
     tr = Transform(doc)
@@ -164,6 +237,8 @@ def markup_case(fam, doc, pos, given):
 
 
 def rebuild(desc):
+    if desc.get("code_newline_text") is not None:
+        return code_newline_case(desc["family"], desc["code_newline_text"])
     if desc.get("case") == "markup":
         sc = gen.family(desc["family"])
         doc = Node.from_json(sc, desc["doc"])
